@@ -46,6 +46,8 @@ func runC05(c *Ctx) {
 	c05Validate(c)
 	c06AliasGuard(c, "C05.old-survives")
 	c05DriverPath(c)
+	c05IterPool(c)
+	c05FreshContext(c)
 }
 
 // c05Order implements C05.order and C05.partial; reused by C12.purge.
@@ -161,6 +163,28 @@ func c05Order(c *Ctx, prop string) {
 			helperStores = append(helperStores, helperStore{ci, sts})
 			c.Examined(g)
 		}
+	}
+	// success→swap: once (*db.DB).Reload has succeeded the old generation is already destroyed and the new one is only
+	// referenced by the local result; every path from the success edge to a return must install it
+	if len(swaps) > 0 {
+		edges := nilEdgesOf(fn, isReloadErr)
+		blocked := map[*ssa.BasicBlock]bool{}
+		for _, st := range swaps {
+			blocked[st.Block()] = true
+		}
+		okSw := len(edges) > 0
+		for _, e := range edges {
+			succ := e.If.Block().Succs[e.Succ]
+			if blocked[succ] {
+				continue
+			}
+			for b := range reachAvoiding(succ, blocked, nil) {
+				if len(b.Succs) == 0 {
+					okSw = false
+				}
+			}
+		}
+		c.Check(rule, name+"|success→swap", okSw, swaps[0].Pos(), "every path from the success edge of (*db.DB).Reload to a return installs the new generation (the old one is already destroyed; skipping the swap leaks the new backend and leaves a destroyed one served)")
 	}
 	if len(pathStores) == 0 && len(helperStores) == 0 {
 		c.Undecided(rule, name+"|path-store", fn.Pos(), "no store to dbConfig.Path found in the reload entry point or the helpers it calls")
